@@ -95,6 +95,28 @@ def executable_programs(run, info):
         yield p
     for p in progen.jump_context_programs(2, cap=150 if run.tier == 'quick' else 1500, rng=random.Random(run.rng.getrandbits(48)), info=sk):
         yield p
+    for p in targeted_jump_programs(info):
+        yield p
+
+
+def targeted_jump_programs(info=None):
+    """Exhaustive in both tiers: every jump kind x both loop kinds x guarded/unguarded x every context path (depth <= 2) that
+    contains a try-with-finally, or consists of try bodies / except handlers only, with trailing statements at every level
+    or at none — the shapes in which a jump is threaded through `finally` bodies / past handlers (progen's jump-context space,
+    of which the stride sample above takes only a fraction)."""
+    n = 0
+    for ix, (jump, loopkind, path, trailing, guarded) in enumerate(progen.jump_context_space(2)):
+        if not path or not ('tryfin' in path or all(c in ('try', 'handler') for c in path)):
+            continue
+        if len(set(trailing)) > 1:
+            continue
+        src = progen._jump_program(jump, loopkind, path, trailing, guarded)
+        prng = random.Random(ix * 7919 + 13)
+        n += 1
+        yield progen.Program(progen.PRELUDE + src, [(1, 2, 3)], set(path) | {jump, loopkind, 'jumpctx', 'jumpctx_targeted'}, 'jumpctx_targeted',
+                             decisions=progen.decision_vectors(prng, 8, length=10), meta={'index': ix})
+    if info is not None:
+        info['targeted_jump_programs'] = n
 
 
 # ---------------------------------------------------------------------------------------------
